@@ -181,6 +181,19 @@ func judgeStall(c stallCase, what string) kit.Result {
 			res.Err = fmt.Errorf("SOFT %s (hello during a %d ms stall, then a heartbeat) got %d of 2 general responses", name, c.StallMs, replies)
 			return res
 		}
+		// evidence that the stall was real: the hello was announced only about when the stalled terminal left
+		var helloAt, joinAt int64 = -1, -1
+		for _, e := range h.Events {
+			if e.Actor == name && e.Kind == "sent" && helloAt < 0 {
+				helloAt = e.TUs
+			}
+			if e.Kind == "cb_join" && e.Key == id.key() && joinAt < 0 {
+				joinAt = e.TUs
+			}
+		}
+		if helloAt >= 0 && joinAt-helloAt > int64(c.StallMs)*500 {
+			res.Labels = append(res.Labels, "join_waited_for_the_stalled_manager")
+		}
 		okJoin, badJoin, leaves := 0, 0, 0
 		for _, e := range h.Events {
 			if e.Kind == "cb_join" && e.Key == id.key() {
